@@ -343,8 +343,8 @@ func checkReturnActions(c *core.Ctx, lintScope map[string]int64, sm map[string]m
 		if !ok {
 			continue
 		}
-		bo, ok := iff.Cond.(*ssa.BinOp)
-		if !ok || bo.Op != token.EQL {
+		bo, eq, ok := core.EqCond(iff.Cond)
+		if !ok {
 			continue
 		}
 		k, isK := core.ConstIntValue(bo.Y)
@@ -371,7 +371,7 @@ func checkReturnActions(c *core.Ctx, lintScope map[string]int64, sm map[string]m
 		}
 		// string constants stored into the variadic slice appended in the arm
 		var acts []string
-		arm := b.Succs[0]
+		arm := b.Succs[eq]
 		for _, bb := range fn.Blocks {
 			if !arm.Dominates(bb) {
 				continue
@@ -692,8 +692,9 @@ func (prog5 *c05vars) cases(fn *ssa.Function) *nameCases {
 						name := constant.StringVal(k.Value)
 						nc.exact[name] = true
 						// kinds returned in the arm
-						if iff, ok := b.Instrs[len(b.Instrs)-1].(*ssa.If); ok && iff.Cond == ssa.Value(t) && t.Op == token.EQL {
-							prog5.armKinds(fn, b.Succs[0], name, nc)
+						if iff, ok := b.Instrs[len(b.Instrs)-1].(*ssa.If); ok && iff.Cond == ssa.Value(t) {
+							_, eq, _ := core.EqCond(t)
+							prog5.armKinds(fn, b.Succs[eq], name, nc)
 						}
 					}
 				}
